@@ -130,6 +130,13 @@ def run(rep, tier, rng):
                 rep.violation(f"HrrAlgebra.sign raises {o[0]} on v={v} (dc={sum(v)}, nyquist={ny}): sign is not total",
                               {"case": {"v": v, "dc": sum(v), "nyquist": ny}, "observed": c.obs_json(o), "finding_key": key,
                                "python": algs.PRELUDE + f"v = np.array({v}, float)\ntry:\n    s = HrrAlgebra().sign(v)\nexcept Exception as e:\n    raise AssertionError('HrrAlgebra.sign is not total: ' + repr(e))\n"})
+            # the sign does not depend on the magnitude: the same vector scaled by powers of two (exact in binary floating point)
+            if o[0] == "ok" and d <= 16:
+                for e2 in (-40, -30, 30):
+                    osc = c.observe(lambda: preds(H.sign(vf * 2.0 ** e2)))
+                    add(f"check_hrr_sign {c.zlist(v)} {obs_t(osc, enc_preds)}",
+                        {"op": "hrr-sign-scaled", "alg": "AHrr", "v": v, "kind": f"{kind} * 2**{e2}", "obs": c.obs_json(osc), "py": f"preds(A.sign(v * 2.0 ** {e2}))"},
+                        ("hrr-sign-scaled", tuple(v), e2), nontrivial=any(v))
             o2 = c.observe(lambda: preds(SemanticPointer(vf).sign()))
             add(f"check_hrr_sign {c.zlist(v)} {obs_t(o2, enc_preds)}",
                 {"op": "sp-sign", "alg": "AHrr", "v": v, "kind": kind, "obs": c.obs_json(o2), "py": "preds(SemanticPointer(v).sign())"},
@@ -159,6 +166,11 @@ def run(rep, tier, rng):
                 {"op": "hrr-sign-of-binding", "alg": "AHrr", "v": conv, "a": a, "b": bb, "obs": c.obs_json(o),
                  "py": "preds(A.sign(A.bind(a, b)))"},
                 ("hrr-sign-of-binding", tuple(a), tuple(bb)))
+            osm = c.observe(lambda: preds(H.sign(H.bind(algs.fl(a) * 2.0 ** -17, algs.fl(bb) * 2.0 ** -17))))
+            add(f"check_hrr_sign {c.zlist(conv)} {obs_t(osm, enc_preds)}",
+                {"op": "hrr-sign-of-binding-small-operands", "alg": "AHrr", "v": conv, "a": a, "b": bb, "obs": c.obs_json(osm),
+                 "py": "preds(A.sign(A.bind(a * 2.0 ** -17, b * 2.0 ** -17)))"},
+                ("hrr-sign-of-binding-small", tuple(a), tuple(bb)))
 
     # property level: the sign of a binding is the component-wise product of the operands' signs
     for d in range(1, (17 if quick else 33)):
